@@ -103,7 +103,10 @@ Tenths(q) == IF q[2] = 0 THEN -1 ELSE RoundHE(10 * q[1], q[2])
 CpRow(a, b) ==
   LET d == Deltas(a, b)
       tot == Tot(d)
-      q == IF tot = 0 THEN <<0, 1>> ELSE Ratio(Busy(d), tot)
+      \* no non-guest time elapsed: 0.0 -- unless the guest columns moved alone
+      \* (user went backwards while guest advanced), which 100*busy/total leaves open
+      q == IF tot = 0 THEN (IF \E f \in 1..Len(d) : IsGuest(f) /\ d[f] > 0 THEN Open ELSE <<0, 1>>)
+           ELSE Ratio(Busy(d), tot)
   IN [tot |-> tot, d |-> d, q |-> q, r10 |-> Tenths(q)]
 
 CtpRow(a, b) ==
@@ -194,7 +197,7 @@ Call(t, fn, form, mode, dm) ==
 CallNeg(t, fn, form) ==
   /\ calls[t] < MaxCalls
   /\ calls' = [calls EXCEPT ![t] = @ + 1]
-  /\ ev' = [op |-> "call", t |-> t, fn |-> fn, form |-> form, mode |-> "neg", res |-> "ValueError"]
+  /\ ev' = [op |-> "call", t |-> t, fn |-> fn, form |-> form, mode |-> "neg", err |-> "ValueError"]
   /\ UnchangedCfg /\ UnchangedProc /\ UNCHANGED <<cpu, last, nadv>>
 
 (* ---------------- Process.cpu_percent -------------------------------------- *)
@@ -216,14 +219,18 @@ PAdvance(du, ds) ==
   /\ UnchangedCfg /\ UNCHANGED <<cpu, last, nadv, calls, wall, plast, npcalls>>
 
 \* 100 * (ticks / clk) / (dw / WallDen)
-PRatio(dc, dw) == IF dw = 0 THEN Open ELSE <<100 * dc * WallDen, clk * dw>>
+RECURSIVE GCD(_, _)
+GCD(a, b) == IF b = 0 THEN a ELSE GCD(b, a % b)
+PRatio(dc, dw) ==
+  LET g == GCD(100, clk)
+  IN IF dw = 0 THEN Open ELSE <<(100 \div g) * dc * WallDen, (clk \div g) * dw>>
 
 \* non-blocking: since this object's previous call; 0.0 on the first call
 PCallNb(o) ==
   /\ npcalls < MaxPCalls
   /\ npcalls' = npcalls + 1
   /\ plast' = [plast EXCEPT ![o] = <<wall, PTicks>>]
-  /\ ev' = [op |-> "pcall", o |-> o, mode |-> "nb", first |-> plast[o] = NoSample,
+  /\ ev' = [op |-> "pcall", o |-> o, mode |-> "nb", first |-> plast[o] = NoSample, err |-> "",
             res |-> IF plast[o] = NoSample THEN <<0, 1>>
                     ELSE PRatio(PTicks - plast[o][2], wall - plast[o][1])]
   /\ UnchangedCfg /\ UNCHANGED <<cpu, last, nadv, calls, wall, ptk, nticks>>
@@ -236,14 +243,14 @@ PCallBlock(o, dt, du, ds) ==
   /\ wall' = wall + dt
   /\ ptk' = <<ptk[1] + du, ptk[2] + ds>>
   /\ plast' = [plast EXCEPT ![o] = <<wall', ptk'[1] + ptk'[2]>>]
-  /\ ev' = [op |-> "pcall", o |-> o, mode |-> "block", first |-> FALSE, dt |-> dt, du |-> du, ds |-> ds,
+  /\ ev' = [op |-> "pcall", o |-> o, mode |-> "block", first |-> FALSE, err |-> "", dt |-> dt, du |-> du, ds |-> ds,
             res |-> PRatio(du + ds, dt)]
   /\ UnchangedCfg /\ UNCHANGED <<cpu, last, nadv, calls, nticks>>
 
 PCallNeg(o) ==
   /\ npcalls < MaxPCalls
   /\ npcalls' = npcalls + 1
-  /\ ev' = [op |-> "pcall", o |-> o, mode |-> "neg", first |-> FALSE, res |-> "ValueError"]
+  /\ ev' = [op |-> "pcall", o |-> o, mode |-> "neg", first |-> FALSE, err |-> "ValueError", res |-> Open]
   /\ UnchangedCfg /\ UNCHANGED <<cpu, last, nadv, calls, wall, ptk, plast, nticks>>
 
 (* ---------------- behaviours ------------------------------------------------ *)
@@ -323,8 +330,9 @@ C07_Busy ==
           LET a == ev'.a[i]
               b == ev'.b[i]
               r == ev'.res[i]
-          IN /\ (nf >= 9 => r.q = CpRow(a, [b EXCEPT ![9] = a[9]]).q)
-             /\ (nf >= 10 => r.q = CpRow(a, [b EXCEPT ![10] = a[10]]).q)
+          IN /\ (nf >= 9 /\ r.tot > 0 => r.q = CpRow(a, [b EXCEPT ![9] = a[9]]).q)
+             /\ (nf >= 10 /\ r.tot > 0 => r.q = CpRow(a, [b EXCEPT ![10] = a[10]]).q)
+             /\ (r.tot = 0 => r.q \in {<<0, 1>>, Open})
              /\ ((r.tot > 0 /\ r.d[IDLE] + r.d[IOWAIT] = r.tot) => r.q = <<0, r.tot>>)
              /\ ((r.tot > 0 /\ r.d[IDLE] + r.d[IOWAIT] = 0) => r.q = <<100 * r.tot, r.tot>>)
              /\ (b[IDLE] >= a[IDLE] /\ b[IOWAIT] >= a[IOWAIT] =>
@@ -367,7 +375,7 @@ EvJ(e) ==
     THEN [op |-> e.op, t |-> e.t, fn |-> e.fn, form |-> e.form, mode |-> e.mode,
           fresh |-> e.fresh, dm |-> e.dm,
           res |-> MkSeq(Len(e.res), LAMBDA i :
-                    [tot |-> e.res[i].tot, q |-> e.res[i].q,
+                    [tot |-> e.res[i].tot, q |-> e.res[i].q, d |-> e.res[i].d,
                      back |-> \E f \in 1..nf : e.b[i][f] < e.a[i][f],
                      guest |-> \E f \in 1..nf : IsGuest(f) /\ e.res[i].d[f] > 0,
                      idle |-> e.res[i].d[IDLE] + e.res[i].d[IOWAIT]])]
